@@ -45,6 +45,8 @@ def main():
                 certdir = "/verif/harness/certs"   # demos that look for certs/ relative to their cwd take the directory as argv[1]
             shutil.copy(demo, base + "/demo.cpp")
         libs = " -lssl -lcrypto" if "WITH_TLS" in flags else ""
+        if os.path.exists(demo) and "-ldl" in "".join(open(demo, errors="replace").readlines()[:40]):
+            libs += " -ldl"
 
         def build_demo(tag):
             return sh("g++ -std=c++17 -O1 -g%s -I repo/include -I repo/src demo.cpp repo/src/*.cpp%s -pthread -o demo_%s" % (flags, libs, tag), cwd=base)
